@@ -512,7 +512,6 @@ protected:
 
         // insert a new entry as the first position in the bucket
         Entry&  newEntry = m_freeEntries.back();
-        newEntry.erased = false;
 
         FirstConstructor::construct(
             const_cast<key_type*>(&newEntry.value->first),
@@ -534,6 +533,13 @@ protected:
         }
 
         m_entries.splice(m_entries.end(), m_freeEntries, --m_freeEntries.end());
+
+        // Only now is the entry part of the map.  If constructing the key
+        // or the value, or the splice, had thrown, the entry would still
+        // be on the free list, where a bucket may hold a stale iterator
+        // to it from the time before it was erased: find() must keep
+        // seeing it as erased.
+        newEntry.erased = false;
 
         theBucket.push_back(--m_entries.end());
 
